@@ -34,16 +34,18 @@ abbrev Seq := List Char
 /-- Which of the defects found by this property's check are modelled as *repaired* (`true`) or as the code was
 (`false`).  F12: `create_read_from_group` drops the other mate; F13: `_detect_alleles_match` never advances its
 query index; F14: `cigar_prefix_length` reports the *requested* number of reference bases at an N;
-F15: without a reference an insertion directly before the first aligned base of a block is called REF. -/
+F15: without a reference an insertion directly before the first aligned base of a block is called REF;
+F16: without a reference an I operation of length `n` also "sees" the variants up to `n` bases to its right. -/
 structure Fixes where
   f12 : Bool
   f13 : Bool
   f14 : Bool
   f15 : Bool
+  f16 : Bool
 deriving Repr, DecidableEq
 
-def Fixes.all : Fixes := ⟨true, true, true, true⟩
-def Fixes.asIs : Fixes := ⟨false, false, false, false⟩
+def Fixes.all : Fixes := ⟨true, true, true, true, true⟩
+def Fixes.asIs : Fixes := ⟨false, false, false, false, false⟩
 
 /-! ## `_iterate_cigar` -/
 
@@ -456,7 +458,8 @@ def noRefGo (fx : Fixes) (query : Seq) (quals : Option (List Nat)) :
     else if op == 4 then noRefGo fx query quals anchored refPos (queryPos + len) vps vqueue rest
     else if op == 5 || op == 6 then noRefGo fx query quals anchored refPos queryPos vps vqueue rest
     else
-      let qd := queueLoop (fx.f15 && !anchored && isMatch op) op refPos queryPos (refPos + len) vps
+      let qd := queueLoop (fx.f15 && !anchored && isMatch op) op refPos queryPos
+        (if fx.f16 && op == 1 then refPos + 1 else refPos + len) vps
       let vqueue := vqueue ++ qd.1
       if !(isMatch op || op == 1 || op == 2) then ([], some .value)
       else
